@@ -1,4 +1,5 @@
 import RV.C12.Model
+import RV.C12.Parsers
 import RV.Base.Proto
 /-
   C12 driver.  Terms are owned by the harness:
@@ -10,8 +11,15 @@ import RV.Base.Proto
   Protocol:
     reset                 -> ok     empty target, uuid supply at 1000, no finished documents
     init s p o g          -> ok     a quad already in the target (blank nodes `bN`, N < 1000)
-    doc <r|v> <into>      -> ok     start a document; r = remap, v = verbatim; into = target graph name
+    doc <r|v> <into>      -> ok     start a document; r = remap, v = verbatim; into = target graph name   (round 1 form)
+    doc <parser> <into> [sk] [pre] [gen] [ctx=K] [inst=K]
+                          -> ok     start a document read by that parser's own node function (`Parsers.parseWith`);
+                                    parser = nt|nquads|turtle|n3|trig|xml|trix|json-ld|hext; sk = skolemize=True,
+                                    pre = preserve_bnode_ids=True, gen = generalized_rdf=True, ctx=K = bnode_context=<the
+                                    caller's dict number K> (empty at reset), inst=K = N-Quads parser object number K
+    ctx K                 -> the keys of the caller's dict K: sorted label numbers < 1000, then `+n` for n other keys
     q s p o g             -> ok     next statement of the document (g may be `-`)
+    open / close          -> ok     `{` / `}` of an N3 formula: the statements in between are the formula's (their g is its node)
     end                   -> ok     parse the document into the target (Graph.parse)
     obs                   -> the target's quads:  s,p,o,g s,p,o,g …   (order irrelevant; harness canonicalises)
     nodes                 -> number of distinct blank nodes in the target
@@ -22,10 +30,66 @@ structure St where
   ds : DS
   pol : Policy
   into : T
-  cur : List DQuad                       -- statements of the open document, reversed
+  cur : List Ev                          -- statements (and `{` `}`) of the open document, reversed
   maps : List (Policy × List (Lbl × Nat)) -- finished documents, in order
+  par : Option Parser                    -- none: round 1 form (policy only)
+  opts : CallOpts
+  ctxK : Option Nat                      -- bnode_context= : which of the caller's dicts
+  instK : Option Nat                     -- which N-Quads parser object
+  ctxs : List (Nat × LMap)               -- the caller's dicts
+  insts : List (Nat × LMap)              -- `_bnode_ids` of the N-Quads parser objects
 
-def St.empty : St := ⟨⟨[], 1000⟩, .remap, .iri 0, [], []⟩
+def stmtsOf : List Ev → List DQuad
+  | [] => []
+  | .stmt q :: es => q :: stmtsOf es
+  | _ :: es => stmtsOf es
+
+def St.empty : St := ⟨⟨[], 1000⟩, .remap, .iri 0, [], [], none, CallOpts.default, none, none, [], []⟩
+
+def parser? (w : String) : Option Parser :=
+  if w = "nt" then some .nt else if w = "nquads" then some .nquads else if w = "turtle" then some .turtle
+  else if w = "n3" then some .n3 else if w = "trig" then some .trig else if w = "xml" then some .xml
+  else if w = "trix" then some .trix else if w = "json-ld" then some .jsonld else if w = "hext" then some .hext
+  else none
+
+def klookup : List (Nat × LMap) → Nat → Option LMap
+  | [], _ => none
+  | (k, v) :: m, n => if k = n then some v else klookup m n
+
+def kset : List (Nat × LMap) → Nat → LMap → List (Nat × LMap)
+  | [], n, v => [(n, v)]
+  | (k, w) :: m, n, v => if k = n then (k, v) :: m else (k, w) :: kset m n v
+
+def numAfterEq (pfx : String) (w : String) : Option Nat :=
+  if w.startsWith pfx then (w.drop pfx.length).toNat? else none
+
+/-- the option words of a `doc` line -/
+def applyOpt (s : St) (w : String) : Option St :=
+  if w = "sk" then some { s with opts := { s.opts with skolemize := true } }
+  else if w = "pre" then some { s with opts := { s.opts with preserve := true } }
+  else if w = "gen" then some { s with opts := { s.opts with generalized := true } }
+  else match numAfterEq "ctx=" w, numAfterEq "inst=" w with
+    | some k, _ => some { s with ctxK := some k }
+    | _, some k => some { s with instK := some k }
+    | _, _ => none
+
+def applyOpts : St → List String → Option St
+  | s, [] => some s
+  | s, w :: ws => match applyOpt s w with
+    | some s' => applyOpts s' ws
+    | none => none
+
+def insertNat : Nat → List Nat → List Nat
+  | n, [] => [n]
+  | n, x :: xs => if n ≤ x then n :: x :: xs else x :: insertNat n xs
+
+def showCtx (m : LMap) : String :=
+  let small := m.foldl (fun acc e => match e.1 with
+    | .named n => if n < 1000 then insertNat n acc else acc
+    | _ => acc) []
+  let other := m.length - small.length
+  let a := ",".intercalate (small.map toString)
+  (if a = "" then "-" else a) ++ (if other = 0 then "" else s!" +{other}")
 
 def numAfter (pfx : Char) (w : String) : Option Nat :=
   match w.toList with
@@ -66,6 +130,7 @@ def showT : T → String
   | .iri n => s!"i{n}"
   | .lit n => s!"l{n}"
   | .bn n => s!"b{n}"
+  | .skol n => s!"k{n}"
 
 def showQuad (q : Quad) : String :=
   ",".intercalate [showT q.1, showT q.2.1, showT q.2.2.1, showT q.2.2.2]
@@ -83,22 +148,55 @@ def step (s : St) : List String → St × String
     match tterm? a, tterm? b, tterm? c, tterm? d with
     | some a, some b, some c, some d => ({ s with ds := { s.ds with quads := sinsert s.ds.quads (a, b, c, d) } }, "ok")
     | _, _, _, _ => (s, "bad-op")
-  | ["doc", p, into] =>
-    match (if p = "r" then some Policy.remap else if p = "v" then some Policy.verbatim else none), tterm? into with
-    | some p, some t => ({ s with pol := p, into := t, cur := [] }, "ok")
-    | _, _ => (s, "bad-op")
+  | "doc" :: p :: into :: ws =>
+    let s0 := { s with cur := [], par := none, opts := CallOpts.default, ctxK := none, instK := none }
+    match (if p = "r" then some Policy.remap else if p = "v" then some Policy.verbatim else none), parser? p, tterm? into with
+    | some p, _, some t => if ws.isEmpty then ({ s0 with pol := p, into := t }, "ok") else (s, "bad-op")
+    | none, some pr, some t =>
+      match applyOpts { s0 with par := some pr, into := t } ws with
+      | some s1 => ({ s1 with pol := (loptsOf pr s1.opts).pol }, "ok")
+      | none => (s, "bad-op")
+    | _, _, _ => (s, "bad-op")
   | ["q", a, b, c, d] =>
     match dterm? s a, dterm? s b, dterm? s c with
     | some a, some b, some c =>
-      if d = "-" then ({ s with cur := (a, b, c, none) :: s.cur }, "ok")
+      if d = "-" then ({ s with cur := .stmt (a, b, c, none) :: s.cur }, "ok")
       else match dterm? s d with
-        | some g => ({ s with cur := (a, b, c, some g) :: s.cur }, "ok")
+        | some g => ({ s with cur := .stmt (a, b, c, some g) :: s.cur }, "ok")
         | none => (s, "bad-op")
     | _, _, _ => (s, "bad-op")
+  | ["open"] => ({ s with cur := .opn :: s.cur }, "ok")
+  | ["close"] => ({ s with cur := .cls :: s.cur }, "ok")
   | ["end"] =>
-    let doc := s.cur.reverse
-    let m := finalMap s.ds s.pol s.into doc
-    ({ s with ds := parseInto s.ds s.pol s.into doc, cur := [], maps := s.maps ++ [(s.pol, m)] }, "ok")
+    let evs := s.cur.reverse
+    let doc := stmtsOf evs
+    match s.par with
+    | none =>
+      let m := finalMap s.ds s.pol s.into doc
+      ({ s with ds := parseInto s.ds s.pol s.into doc, cur := [], maps := s.maps ++ [(s.pol, m)] }, "ok")
+    | some .turtle | some .n3 | some .trig =>
+      -- the N3-family parser as coded: a stack of label dicts (`Parsers.n3Run`)
+      let r := n3Run s.into ⟨s.ds.fresh, [], [], []⟩ evs
+      ({ s with ds := parseN3 s.ds s.into evs, cur := [], maps := s.maps ++ [(.remap, r.1.cur)] }, "ok")
+    | some pr =>
+      -- the dicts this call sees: the caller's `bnode_context` (if given) and the parser object's `_bnode_ids`
+      let arg := s.ctxK.map (fun k => (klookup s.ctxs k).getD [])
+      let self := match s.instK with
+        | some k => (klookup s.insts k).getD []
+        | none => []
+      let r := parseWith pr s.opts s.ds (ntStart arg self) s.into doc
+      let fin := ntFinish arg self r.2
+      let ctxs := match s.ctxK, fin.1 with
+        | some k, some m => kset s.ctxs k m
+        | _, _ => s.ctxs
+      let insts := match s.instK with
+        | some k => kset s.insts k fin.2
+        | none => s.insts
+      ({ s with ds := r.1, cur := [], maps := s.maps ++ [(s.pol, r.2)], ctxs := ctxs, insts := insts }, "ok")
+  | ["ctx", k] =>
+    match k.toNat? with
+    | some k => (s, showCtx ((klookup s.ctxs k).getD []))
+    | none => (s, "bad-op")
   | ["obs"] => (s, " ".intercalate (s.ds.quads.map showQuad))
   | ["nodes"] => (s, toString (nodeList s.ds.quads).length)
   | _ => (s, "bad-op")
